@@ -440,6 +440,120 @@ theorem applyLoop_value_step (n : Nat) {σ : Store} {lam : Lambda} {cenv : Nat} 
     applyLoop (n+1) σ (.closure lam cenv) args env = (.ok v, σ₁) := by
   rw [applyLoop]; simp only [procArity, ha, hs]; simp
 
+/-! ## sequences: operands, bodies, definitions -/
+
+/-- the expressions `es` evaluate in order, each to some value (which is dropped), from `σ` to `σ'` -/
+inductive EvalsSeq (ρ : Nat) : Store → List Expr → Store → Prop
+  | nil {σ} : EvalsSeq ρ σ [] σ
+  | cons {σ e v σ₁ es σ'} (h : Evals σ ρ e (.ok v) σ₁) (ht : EvalsSeq ρ σ₁ es σ') : EvalsSeq ρ σ (e :: es) σ'
+
+/-- the body of a procedure: everything before the last expression is evaluated for effect, the
+last expression as a tail expression -/
+theorem EvalsBody.seq_last {ρ σ es σ₁ last r σ'} (hs : EvalsSeq ρ σ es σ₁) (ht : EvalsTail σ₁ ρ last r σ') :
+    EvalsBody σ ρ (es ++ [last]) r σ' := by
+  induction hs with
+  | nil => exact EvalsBody.last ht
+  | @cons σ e v σ₁ es σ₂ h _ ih =>
+    have := ih ht
+    cases es with
+    | nil => exact EvalsBody.cons h this
+    | cons e' es' => exact EvalsBody.cons h this
+
+
+/-- an error among the operands: the operands before it have been evaluated, the operands after it
+are not looked at (`post` is arbitrary), the store is the one the failing operand left -/
+theorem EvalsArgs.append_err {ρ post a er} : ∀ {pre σ vs σ₁ σ₂}, EvalsArgs σ ρ pre (.ok vs) σ₁ →
+    Evals σ₁ ρ a (.error er) σ₂ → EvalsArgs σ ρ (pre ++ a :: post) (.error er) σ₂
+  | [], σ, vs, σ₁, σ₂, hp, ha => by
+    obtain ⟨_, rfl⟩ := hp.nil_inv
+    exact EvalsArgs.cons_err ha
+  | p :: pre, σ, vs, σ₁, σ₂, hp, ha => by
+    rcases hp.cons_inv with ⟨er', _, h⟩ | ⟨v, σ', hv, ⟨er', _, h⟩ | ⟨vs', hvs, _⟩⟩
+    · cases h
+    · cases h
+    · exact EvalsArgs.cons_tail_err hv (EvalsArgs.append_err hvs ha)
+
+/-- the operands as a sequence -/
+theorem EvalsArgs.of_seq {ρ σ es σ'} (h : EvalsSeq ρ σ es σ') : ∃ vs, EvalsArgs σ ρ es (.ok vs) σ' := by
+  induction h with
+  | nil => exact ⟨[], EvalsArgs.nil⟩
+  | cons h _ ih => obtain ⟨vs, hvs⟩ := ih; exact ⟨_, EvalsArgs.cons h hvs⟩
+
+/-- an error in a body expression that is not the last one: the expressions before it have been
+evaluated, the rest of the body is not looked at -/
+theorem EvalsBody.seq_err {ρ σ es σ₁ e er σ₂ e' post} (hs : EvalsSeq ρ σ es σ₁)
+    (he : Evals σ₁ ρ e (.error er) σ₂) : EvalsBody σ ρ (es ++ e :: e' :: post) (.error er) σ₂ := by
+  induction hs with
+  | nil => exact EvalsBody.cons_err he
+  | @cons σ x v σ₁ es σ₃ h _ ih =>
+    have := ih he
+    cases es with
+    | nil => exact EvalsBody.cons h this
+    | cons _ _ => exact EvalsBody.cons h this
+
+/-- the definitions `ds` are evaluated and bound in frame `ρ` in order, from `σ` to `σ'` -/
+inductive EvalsDefSeq (ρ : Nat) : Store → List Def → Store → Prop
+  | nil {σ} : EvalsDefSeq ρ σ [] σ
+  | cons {σ x e l v σ₁ ds σ'} (h : Evals σ ρ e (.ok v) σ₁) (ht : EvalsDefSeq ρ (σ₁.define ρ x v) ds σ') :
+      EvalsDefSeq ρ σ (.mk x e l :: ds) σ'
+
+theorem EvalsDefs.seq_then {ρ σ ds σ₁ rest r σ'} (hs : EvalsDefSeq ρ σ ds σ₁) (ht : EvalsDefs σ₁ ρ rest r σ') :
+    EvalsDefs σ ρ (ds ++ rest) r σ' := by
+  induction hs with
+  | nil => exact ht
+  | cons h _ ih => exact EvalsDefs.cons h (ih ht)
+
+/-- an error in an internal definition: the definitions before it are bound, the ones after it and
+the body are not looked at -/
+theorem EvalsDefs.seq_err {ρ σ ds σ₁ x e l er σ₂ post} (hs : EvalsDefSeq ρ σ ds σ₁)
+    (he : Evals σ₁ ρ e (.error er) σ₂) : EvalsDefs σ ρ (ds ++ .mk x e l :: post) (.error er) σ₂ :=
+  EvalsDefs.seq_then hs (EvalsDefs.cons_err he)
+
+/-! ## inversion of one iteration of the loop on a user procedure -/
+
+/-- everything a settled iteration of the loop on a user procedure can consist of -/
+theorem Applies.closure_inv {σ lam cenv args env r σ'} (h : Applies σ (.closure lam cenv) args env r σ') :
+    (arityOk lam.formals.fixed.length lam.formals.rest.isSome args.length = false ∧
+      r = .error (.arity, none) ∧ σ' = σ) ∨
+    (arityOk lam.formals.fixed.length lam.formals.rest.isSome args.length = true ∧
+      ((∃ er, AppliesScheme σ lam cenv args (.error er) σ' ∧ r = .error er) ∨
+       (∃ v, AppliesScheme σ lam cenv args (.ok (.value v)) σ' ∧ r = .ok v) ∨
+       (∃ f targs tenv σ₁, AppliesScheme σ lam cenv args (.ok (.tailCall f targs tenv)) σ₁ ∧
+          ((∃ er, Evals σ₁ tenv f (.error er) σ' ∧ r = .error er) ∨
+           (∃ fv σ₂, Evals σ₁ tenv f (.ok fv) σ₂ ∧
+              ((∃ er, EvalsArgs σ₂ tenv targs (.error er) σ' ∧ r = .error er) ∨
+               (∃ vs σ₃, EvalsArgs σ₂ tenv targs (.ok vs) σ₃ ∧
+                  ((procArity fv = none ∧ r = .error (.nonProcedure, none) ∧ σ' = σ₃) ∨
+                   ((procArity fv).isSome ∧ Applies σ₃ fv vs env r σ'))))))))) := by
+  obtain ⟨hr, N, hN⟩ := h.out
+  clear h
+  have h := hN (N+1) (by omega)
+  clear hN
+  cases ha : arityOk lam.formals.fixed.length lam.formals.rest.isSome args.length with
+  | false =>
+    rw [applyLoop_arity_gate N σ env (p := .closure lam cenv) rfl ha] at h
+    cases h; exact .inl ⟨rfl, rfl, rfl⟩
+  | true =>
+    refine .inr ⟨rfl, ?_⟩
+    rw [applyLoop] at h
+    simp only [procArity, ha, Bool.not_true, Bool.false_eq_true, if_false] at h
+    split at h
+    next er σ₁ heq => cases h; exact .inl ⟨er, AppliesScheme.intro heq hr.cast, rfl⟩
+    next v σ₁ heq => cases h; exact .inr (.inl ⟨v, AppliesScheme.intro heq (by simp), rfl⟩)
+    next f targs tenv σ₁ heq =>
+      refine .inr (.inr ⟨f, targs, tenv, σ₁, AppliesScheme.intro heq (by simp), ?_⟩)
+      split at h
+      next er σ₂ heq₂ => cases h; exact .inl ⟨er, Evals.intro heq₂ hr, rfl⟩
+      next fv σ₂ heq₂ =>
+        refine .inr ⟨fv, σ₂, Evals.intro heq₂ (by simp), ?_⟩
+        split at h
+        next er σ₃ heq₃ => cases h; exact .inl ⟨er, EvalsArgs.intro heq₃ hr.cast, rfl⟩
+        next vs σ₃ heq₃ =>
+          refine .inr ⟨vs, σ₃, EvalsArgs.intro heq₃ (by simp), ?_⟩
+          split at h
+          next hpa => cases h; exact .inl ⟨hpa, rfl, rfl⟩
+          next a hpa => exact .inr ⟨by simp [procArity, hpa], Applies.intro h hr⟩
+
 /-! ### a failing native procedure, in every way it can be invoked -/
 
 /-- the native procedure `b` applied to `args` in store `σ` is stopped with an error of kind `k`,
@@ -461,4 +575,85 @@ theorem BuiltinFault.intro {σ b args k} (hb : b ≠ .apply) (ha : arityOk b.ari
 @[simp] theorem frames_enter (σ : Store) : (enter σ).frames = σ.frames := rfl
 
 end Eval
+
+/-! ## the interpreter around the evaluator -/
+
+namespace Interp
+open Eval
+
+/-- `eval_expression_or_definition` changes nothing but the store -/
+theorem evalExprOrDef_state (fuel : Nat) (st : State) (s : Statement) (ρ : Nat) :
+    ∃ σ', (evalExprOrDef fuel st s ρ).2 = { st with store := σ' } := by
+  unfold evalExprOrDef
+  repeat' split
+  all_goals first | exact ⟨_, rfl⟩ | exact ⟨st.store, rfl⟩
+
+/-- what `eval_ast` returns for an expression: the evaluator's outcome (a missing error location
+replaced by the expression's) and the evaluator's store, in the state otherwise as given -/
+theorem evalAst_expr (fuel : Nat) (st : State) (e : Expr) :
+    evalAst fuel st (.expr e) =
+      ((match (evalExpr fuel st.store st.env e).1 with
+        | .ok v => .ok (some v)
+        | .error (k, loc) => .error (k, loc.orElse (fun _ => e.loc))),
+       { st with store := (evalExpr fuel st.store st.env e).2, importEnd := true }) := by
+  unfold evalAst
+  cases hi : st.importEnd
+  · simp only [Bool.not_false, if_true, evalExprOrDef]
+    generalize evalExpr fuel st.store st.env e = x
+    obtain ⟨r, σ₁⟩ := x
+    cases r with
+    | error er => obtain ⟨k, l⟩ := er; rfl
+    | ok v => rfl
+  · simp only [Bool.not_true, Bool.false_eq_true, if_false, evalExprOrDef]
+    generalize evalExpr fuel st.store st.env e = x
+    obtain ⟨r, σ₁⟩ := x
+    cases st
+    simp only at hi
+    subst hi
+    cases r with
+    | error er => obtain ⟨k, l⟩ := er; rfl
+    | ok v => rfl
+
+/-- what `eval_ast` returns for a definition: the name is bound only if the expression evaluated -/
+theorem evalAst_definition (fuel : Nat) (st : State) (x : String) (e : Expr) (l : Loc) :
+    evalAst fuel st (.definition (.mk x e l)) =
+      (match evalExpr fuel st.store st.env e with
+       | (.ok v, σ) => (.ok none, { st with store := σ.define st.env x v, importEnd := true })
+       | (.error (k, loc), σ) =>
+         (.error (k, loc.orElse (fun _ => l)), { st with store := σ, importEnd := true })) := by
+  unfold evalAst
+  cases hi : st.importEnd
+  · simp only [Bool.not_false, if_true, evalExprOrDef]
+    generalize evalExpr fuel st.store st.env e = x
+    obtain ⟨r, σ₁⟩ := x
+    cases r with
+    | error er => obtain ⟨k, l⟩ := er; rfl
+    | ok v => rfl
+  · simp only [Bool.not_true, Bool.false_eq_true, if_false, evalExprOrDef]
+    generalize evalExpr fuel st.store st.env e = x
+    obtain ⟨r, σ₁⟩ := x
+    cases st
+    simp only at hi
+    subst hi
+    cases r with
+    | error er => obtain ⟨k, l⟩ := er; rfl
+    | ok v => rfl
+
+/-- one step of `Interpreter::eval`: the next datum is transformed in the current syntax scope,
+evaluated by `eval_ast`, and the REST OF THE TEXT is evaluated from the state `eval_ast` returned;
+an error stops the text and returns that state -/
+theorem evalText_go_step (fuel n : Nat) (s s' : Read.PState) (st : State) (last : Option Value) (d : Datum)
+    (stmt : Statement) (syn : Xform.SynEnv) (hd : Read.nextDatum s = .ok (some d, s'))
+    (hx : Xform.toStatement (Xform.xformFuel d) d st.syn = (.ok stmt, syn)) :
+    evalText.go fuel (n+1) s st last =
+      match evalAst fuel { st with syn := syn } stmt with
+      | (.error e, st') => (.error e, st')
+      | (.ok v, st') => evalText.go fuel n s' st' v := by
+  rw [evalText.go]
+  simp only [hd, hx]
+  generalize evalAst fuel _ stmt = x
+  obtain ⟨r, st'⟩ := x
+  cases r <;> rfl
+
+end Interp
 end Ruschm
